@@ -451,6 +451,7 @@ func r3int(c *core.Ctx) {
 	const R = "R3.int"
 	c.Rule(R, "appendInteger: octets are counted on value>>7 (two's complement, sign bit) for unconstrained/extended values and on value>>8 (non-negative) for constrained ranges above 64K")
 	fn := mustFunc(c, pAper, "perRawBitData.appendInteger")
+	decidedX := r3intX(c, R)
 	p := core.NewPather(fn)
 	found := false
 	for _, b := range fn.Blocks {
@@ -538,6 +539,10 @@ func r3int(c *core.Ctx) {
 					}
 				}
 			}
+		}
+		if decidedX {
+			c.Note("R3.int: the octet count of appendInteger is not a class-dependent pre-shift followed by a shift loop; it is decided by the value classes of the evaluator (non-negative values; constrained ranges 2^32 and 2^40, unconstrained)")
+			return
 		}
 		c.SoftUndecided("appendInteger: the octet-count pre-shift (value>>7 / value>>8) was not found in the recognised form")
 	}
